@@ -535,19 +535,23 @@ impl Ctx {
                             edits_in.push(l(vec![a(1), a(e.res as i64), text_sx(&e.text), a(1), l(vec![])]));
                         }
                         outs.push(panic_sx());
+                        outs.push(panic_sx());
                     }
                     Some(Err(_)) => {
                         // refused: the offsets do not fit the text any more
                         edits_in.push(l(vec![a(1), a(e.res as i64), text_sx(&e.text), a(0)]));
-                        outs.push(l(vec![a(0)]));
+                        outs.push(l(vec![a(0)])); // the text selections: refused
+                        outs.push(l(vec![a(0)])); // the verdicts: none
                     }
                     Some(Ok(s2)) => {
                         collect_digests(&s2, &mut table);
+                        let ranges = obs_ranges(&s2);
                         if e.same_len {
                             edits_in.push(l(vec![a(0), a(e.res as i64), text_sx(&e.text)]));
                         } else {
-                            edits_in.push(l(vec![a(1), a(e.res as i64), text_sx(&e.text), a(1), obs_ranges(&s2)]));
+                            edits_in.push(l(vec![a(1), a(e.res as i64), text_sx(&e.text), a(1), ranges.clone()]));
                         }
+                        outs.push(ranges);
                         outs.push(verdicts(&s2, true));
                     }
                 }
@@ -700,6 +704,12 @@ pub fn gen_request(rng: &mut Rng, max_ops: usize, long_texts: bool, cap: usize) 
                 ops.push(again);
             }
         }
+        if op.nth(0).int() == 3 && st == 1 && rng.chance(1, 6) {
+            // a twin: the same target once more (equal texts share their validation data)
+            let twin = l(vec![a(3), a(-1), op.nth(2).clone(), l(vec![])]);
+            let _ = apply(&mut store, &twin);
+            ops.push(twin);
+        }
         if guard(|| shadow.sync(&store)).is_none() {
             break;
         }
@@ -707,22 +717,166 @@ pub fn gen_request(rng: &mut Rng, max_ops: usize, long_texts: bool, cap: usize) 
     l(vec![l(ops), a(rng.below(4) as i64), l(vec![a(-1), a(cap as i64)])])
 }
 
+/// what a case exercised: read from the request, the model input and the implementation's answers
+fn coverage(out: &mut Out, req: &Sx, input: &Sx, obs: &[Sx]) {
+    out.count(&format!("mode_{}", req.nth(1).int()));
+    for e in input.nth(3).list() {
+        out.count(match (e.nth(0).int(), e.nth(3).int()) {
+            (0, _) => "edit_same_length",
+            (_, 0) => "edit_refused_by_loader",
+            _ => "edit_other_length_loaded",
+        });
+    }
+    if input.nth(4).nth(0).int() == 0 {
+        out.count("json_round_trip_impossible_before_protect");
+    }
+    if input.nth(4).nth(1).int() == 0 {
+        out.count("cbor_round_trip_impossible_before_protect");
+    }
+    let mut protects = 0;
+    for op in req.nth(0).list() {
+        match op.nth(0).int() {
+            9 => protects += 1,
+            3 => {
+                let t = op.nth(2);
+                match t.nth(0).int() {
+                    0 => out.count("target_text"),
+                    2 => out.count("target_annotation_relative"),
+                    7 => out.count(match t.nth(1).int() {
+                        1 => "target_multi",
+                        2 => "target_composite",
+                        _ => "target_directional",
+                    }),
+                    _ => out.count("target_without_text"),
+                }
+                for d in op.nth(3).list() {
+                    if d.nth(0).nth(1).int() == VSET_TOK && d.nth(0).nth(0).int() == 0 {
+                        out.count(match d.nth(2).nth(1).int() {
+                            KDEL => "own_delimiter",
+                            KCHK => "hand_carried_checksum",
+                            KTXT => "hand_carried_text",
+                            _ => "other_validation_set_data",
+                        });
+                    }
+                }
+            }
+            _ => {}
+        }
+    }
+    if protects > 0 {
+        out.count("protect_in_the_middle");
+    }
+    // verdict lists: every observation of the form ((v...) (valid invalid missing))
+    for o in obs {
+        if o.list().len() == 2 && o.nth(1).list().len() == 3 {
+            out.count_n("verdict_valid", o.nth(1).nth(0).int() as u64);
+            out.count_n("verdict_invalid", o.nth(1).nth(1).int() as u64);
+            out.count_n("verdict_missing", o.nth(1).nth(2).int() as u64);
+        }
+    }
+}
+
+/// exhaustive small scope: one resource of three characters, two annotations from a pool of
+/// targets (all begin-aligned ranges, end-aligned and mixed cursors, two-part Multi and
+/// Directional selections, an annotation-relative selection), the four modes, every single edit
+fn small_scope(out: &mut Out, ctx: &Ctx, thorough: bool) {
+    let c = |n: i64| l(vec![a(0), a(n)]);
+    let e = |n: i64| l(vec![a(1), a(n)]);
+    let t = |b: Sx, en: Sx| l(vec![a(0), r(0), b, en]);
+    let mut pool: Vec<Sx> = Vec::new();
+    for b in 0..=3 {
+        for en in b..=3 {
+            pool.push(t(c(b), c(en)));
+        }
+    }
+    pool.push(t(c(1), e(-1)));
+    pool.push(t(e(-2), e(0)));
+    pool.push(t(e(-3), c(2)));
+    pool.push(l(vec![a(7), a(1), t(c(2), c(3)), t(c(0), c(1))]));
+    pool.push(l(vec![a(7), a(3), t(c(2), c(3)), t(c(0), c(1))]));
+    pool.push(l(vec![a(7), a(1), t(c(0), e(-2)), t(e(-2), c(3))]));
+    pool.push(l(vec![a(7), a(2), t(c(0), c(2)), t(c(1), c(1)), t(e(-1), e(0))]));
+    pool.push(l(vec![a(2), hnd(0), c(0), e(-1)]));
+    let texts: Vec<[i64; 3]> = if thorough {
+        let mut v = Vec::new();
+        for x in [97i64, 233] {
+            for y in [97i64, 233] {
+                for z in [97i64, 233] {
+                    v.push([x, y, z]);
+                }
+            }
+        }
+        v.push([128512, 97, 128512]);
+        v
+    } else {
+        vec![[97, 97, 97], [97, 233, 97], [97, 97, 233]]
+    };
+    // the threshold of the automatic mode (40 characters), single and summed over the parts
+    {
+        let len = 45usize;
+        let text: Vec<Sx> = (0..len).map(|i| a(ALPHA[(i * 7 + i / 5) % ALPHA.len()] as u32 as i64)).collect();
+        let mut res = vec![a(0), a(0), a(len as i64)];
+        res.extend(text);
+        for total in [38i64, 39, 40, 41, 42] {
+            for split in [0i64, 1, 20] {
+                let target = if split == 0 {
+                    t(c(2), c(2 + total))
+                } else {
+                    // two parts that overlap by one character: the lengths add up to [total]
+                    l(vec![a(7), a(1 + (total % 3)), t(c(1), c(1 + split)), t(c(split), c(split + total - split))])
+                };
+                for mode in [3i64, 0, 2] {
+                    let ops = vec![l(res.clone()), l(vec![a(3), a(-1), target.clone(), l(vec![])])];
+                    let req = l(vec![l(ops), a(mode), l(vec![a(-1), a(9)])]);
+                    let (input, o, nt) = ctx.exec(&req);
+                    coverage(out, &req, &input, &o);
+                    out.count("auto_threshold_case");
+                    out.case(&input, &o, nt, &req);
+                }
+            }
+        }
+    }
+    let delims: [Option<&str>; 2] = [None, Some("|")];
+    let step = if thorough { 1 } else { 2 };
+    let mut k = 0usize;
+    for tx in texts.iter() {
+        for (i, t1) in pool.iter().enumerate() {
+            for (j, t2) in pool.iter().enumerate() {
+                k += 1;
+                if (i + j + k) % step != 0 {
+                    continue;
+                }
+                for mode in 0..4 {
+                    let d = delims[(i + j + mode) % 2];
+                    let data = match d {
+                        Some(x) => l(vec![vdata(KDEL, x)]),
+                        None => l(vec![]),
+                    };
+                    let ops = vec![
+                        l(vec![a(0), a(0), a(3), a(tx[0]), a(tx[1]), a(tx[2])]),
+                        l(vec![a(3), a(-1), t1.clone(), l(vec![])]),
+                        l(vec![a(3), a(-1), t2.clone(), data]),
+                    ];
+                    let req = l(vec![l(ops), a(mode as i64), l(vec![a(-1), a(9)])]);
+                    let (input, o, nt) = ctx.exec(&req);
+                    coverage(out, &req, &input, &o);
+                    out.case(&input, &o, nt, &req);
+                }
+            }
+        }
+    }
+}
+
 pub fn generate(out: &mut Out, tier: &str, seed: u64) {
     let thorough = tier == "thorough";
     let ctx = Ctx::new();
     let mut rng = Rng::new(seed ^ 0xC18);
-    let n = if thorough { 12000 } else { 500 };
+    small_scope(out, &ctx, thorough);
+    let n = if thorough { 60000 } else { 800 };
     for i in 0..n {
         let req = gen_request(&mut rng, if i % 5 == 0 { 24 } else { 10 }, i % 3 == 0, if thorough { 12 } else { 9 });
         let (input, o, nt) = ctx.exec(&req);
-        out.count(&format!("mode_{}", req.nth(1).int()));
-        for e in input.nth(3).list() {
-            out.count(match (e.nth(0).int(), e.nth(3).int()) {
-                (0, _) => "edit_same_length",
-                (_, 0) => "edit_refused_by_loader",
-                _ => "edit_other_length_loaded",
-            });
-        }
+        coverage(out, &req, &input, &o);
         out.case(&input, &o, nt, &req);
     }
     let _ = std::fs::remove_dir_all(&ctx.dir);
